@@ -1226,10 +1226,86 @@ def fixed_hash_leg(res, rng, n):
                 ld.close()
 
 
+def lru_leg(res, rng, n):
+    """an LRU Dict takes more keys than it has room for: whatever it
+    forgets, the entry inserted last - by the program or by Python - is
+    found by the other side with its values (plain Dicts are kept below
+    capacity everywhere else)"""
+    for _ in range(n):
+        size = rng.choice([2, 4, 8])
+        Key = type("LKey", (Structure,), {"k0": Member("I")})
+        Value = type("LValue", (Structure,), {"v0": Member("Q"),
+                                              "v1": Member("I")})
+        m = ArrayMap()
+        ns = {"license": "GPL", "m": m, "ik": m.globalVar("I"),
+              "iv": m.globalVar("Q"), "rc": m.globalVar("q"),
+              "d": Dict(key=Key, value=Value, size=size, lru=True)}
+
+        def program(self):
+            e = self
+            e.d.key.k0 = e.ik
+            e.d.value.v0 = e.iv
+            e.d.value.v1 = 7
+            e.d.update()
+            e.rc = e.sr0
+            e.r0 = 2
+            e.exit()
+        ns["program"] = program
+        desc = dict(lru_leg=True, size=size)
+        with kern.session() as sess:
+            try:
+                e = type("VfLru", (XDP,), ns)()
+                ld = prog.Loaded(e, sess)
+                ld.load()
+            except (OSError, AssembleError) as ex:
+                res.violation("unexplained:lru-dict-not-loaded",
+                              f"{type(ex).__name__}: {str(ex)[-200:]}",
+                              case=desc)
+                continue
+            try:
+                for j in range(3 * size + 4):
+                    k = Key()
+                    k.k0 = 1000 + j
+                    val = rng.getrandbits(63)
+                    side = rng.choice(["program", "python"])
+                    why = None
+                    try:
+                        if side == "program":
+                            e.ik, e.iv = 1000 + j, val
+                            ld.run_k(bytes(64))
+                            if e.rc != 0:
+                                why = f"update() left {e.rc} in r0"
+                        else:
+                            v = Value()
+                            v.v0, v.v1 = val, 7
+                            e.d[k] = v
+                        if why is None:
+                            got = e.d[k]
+                            if (got.v0, got.v1) != (val, 7):
+                                why = f"found with ({got.v0}, {got.v1})"
+                    except (KeyError, IndexError, OSError) as ex:
+                        why = f"{type(ex).__name__}: {ex}"
+                    res.case([desc, j, side], nontrivial=j >= size)
+                    res.count("lru_inserts")
+                    if j >= size:
+                        res.count("lru_inserts_into_a_full_dict")
+                    if why:
+                        res.violation(
+                            "unexplained:lru-dict-loses-the-newest-entry",
+                            f"LRU Dict of size {size}: distinct key number "
+                            f"{j + 1} inserted by the {side} with "
+                            f"({val}, 7): {why}", case=desc)
+                        break
+            finally:
+                ld.close()
+
+
 def run_shard(params):
     res = Result()
     rng = random.Random(params["seed"] * 100109 + params["shard"])
     sign_leg(res, random.Random(rng.getrandbits(32)), 6)
+    lru_leg(res, random.Random(rng.getrandbits(32)),
+            3 if params["nd"] <= 100 else 10)
     fixed_hash_leg(res, random.Random(rng.getrandbits(32)),
                    6 if params["nd"] <= 100 else 20)
     interleave_leg(res, random.Random(rng.getrandbits(32)),
